@@ -440,7 +440,8 @@ def check(prop, tier, base_seed, budget_s=None, max_runs=None):
         n_new += 1
         it = items[0]
         try:
-            case, seed, trace, tried = minimise(scn, it, budget_s=scn.budget.get("minimise", 60))
+            # full minimisation budget for the first three new signatures, a short one for the rest
+            case, seed, trace, tried = minimise(scn, it, budget_s=scn.budget.get("minimise", 60) if n_new <= 3 else 8)
         except BaseException as e:  # noqa: BLE001
             print(f"HARNESS-ERROR property={prop} minimiser failed: {e!r}")
             case, seed, trace = it["case"], it["seed"], None
